@@ -183,11 +183,10 @@ when a line has already failed (regenerated fact `skipChecksFailed`). -/
 theorem skip_honours_failed (s : Cmds.St) (neg : Bool) (args : List Bytes) :
     (Cmds.cmdSkip true s neg args).2 ≠ .skip := by
   have : Gen.TsRun.skipChecksFailed = true := rfl
-  unfold Cmds.cmdSkip Cmds.fatal
+  unfold Cmds.cmdSkip Cmds.fatal Cmds.unm
   simp only [this]
-  split
-  · simp
-  · split <;> simp
+  repeat' split
+  all_goals first | (simp; done) | simp_all
 
 /-- Every command of the concrete model — the whole builtin table of cmd.go as modelled, and the
 harness's `Params.Cmds` — honours `ts.failed`: only the builtin `skip` ever calls T.Skip, and it
@@ -216,6 +215,114 @@ theorem builtins_honour_failed (p : Cmds.P) : HonoursFailed (Cmds.config p) := b
 
 example : (Cmds.cmdSkip true Cmds.initSt false []).2 = .failNow ∧ (Cmds.cmdSkip false Cmds.initSt false []).2 = .skip := by
   decide
+
+/-! ### background commands and the verdict
+
+`exec … &` only records the command; whether it ended as its line demands (success, or failure
+under `!`) is reported by the next `wait` — or by `skip`, which waits first (regenerated fact
+`skipChecksBackground`: cmdSkip calls `ts.cmdWait`, not `ts.waitBackground(false)`).  Together with
+`pass_iff` / `first_failure` (a line that ends `fatal` excludes pass and skip) this is the
+"every executed line meets its demand" clause for background commands. -/
+
+/-- `skip` marks the script skipped only if every outstanding background command, interrupted, ended
+as its line demands. -/
+theorem skip_only_if_background_ok (failed : Bool) (s : Cmds.St) (neg : Bool) (args : List Bytes)
+    (h : (Cmds.cmdSkip failed s neg args).2 = .skip) :
+    ∀ b ∈ s.bg, Cmds.BgAsDemanded true b := by
+  have hf : Gen.TsRun.skipChecksBackground = true := rfl
+  unfold Cmds.cmdSkip at h
+  rw [hf] at h
+  split at h
+  · simp [Cmds.fatal] at h
+  · split at h
+    · simp [Cmds.fatal] at h
+    · split at h
+      · simp [Cmds.unm] at h
+      · simp [Cmds.fatal] at h
+      · rename_i o e hw
+        exact Cmds.waitAll_some_all true s.bg [] [] (o, e) hw
+
+/-- A background command that ended against its line (every earlier one as demanded) makes an executed
+`skip` FAIL: the outcome is `fatal` (a `FAIL:` entry for this line; the verdict can no longer be
+pass or skip), whatever `ts.failed` is. -/
+theorem skip_reports_background (failed : Bool) (s : Cmds.St) (args : List Bytes)
+    (pre post : List Cmds.Bg) (b : Cmds.Bg)
+    (hargs : args.length ≤ 1) (hbg : s.bg = pre ++ b :: post)
+    (hpre : ∀ x ∈ pre, Cmds.BgAsDemanded true x) (hb : Cmds.bgStatus true b = some b.neg) :
+    (Cmds.cmdSkip failed s false args).2 = .fatal := by
+  have hf : Gen.TsRun.skipChecksBackground = true := rfl
+  have hl : ¬ args.length > 1 := by omega
+  unfold Cmds.cmdSkip
+  rw [hf, hbg, Cmds.waitAll_contradiction true pre post b hpre hb]
+  simp [hl, Cmds.fatal]
+
+/-- `wait` (no name) ends `ok` only if every outstanding background command ended as its line demands;
+then `ts.background` is empty and stdout / stderr are the outputs joined in order. -/
+theorem wait_only_if_background_ok (failed : Bool) (s : Cmds.St) (neg : Bool)
+    (h : (Cmds.cmdWait failed s neg []).2 = .ok) :
+    (∀ b ∈ s.bg, Cmds.BgAsDemanded false b) ∧ (Cmds.cmdWait failed s neg []).1.bg = [] ∧
+    (Cmds.cmdWait failed s neg []).1.stdout = (s.bg.map (·.out)).flatten ∧
+    (Cmds.cmdWait failed s neg []).1.stderr = (s.bg.map (·.err)).flatten := by
+  unfold Cmds.cmdWait at h ⊢
+  simp only [List.length_nil, gt_iff_lt, Nat.not_lt_zero, if_false] at h ⊢
+  split at h
+  · simp [Cmds.fatal] at h
+  · rename_i hneg
+    simp only [hneg]
+    split at h
+    · simp [Cmds.unm] at h
+    · simp [Cmds.fatal] at h
+    · rename_i o e hw
+      have ho := Cmds.waitAll_some_outputs false s.bg [] [] (o, e) hw
+      simp only [List.nil_append, Prod.mk.injEq] at ho
+      exact ⟨Cmds.waitAll_some_all false s.bg [] [] (o, e) hw, by simp [Cmds.okay], by simp [Cmds.okay, ho.1], by simp [Cmds.okay, ho.2]⟩
+
+/-- … and a background command that ended against its line makes `wait` FAIL, leaving `ts.background`
+and the buffers as they were. -/
+theorem wait_reports_background (failed : Bool) (s : Cmds.St) (pre post : List Cmds.Bg) (b : Cmds.Bg)
+    (hbg : s.bg = pre ++ b :: post)
+    (hpre : ∀ x ∈ pre, Cmds.BgAsDemanded false x) (hb : Cmds.bgStatus false b = some b.neg) :
+    Cmds.cmdWait failed s false [] = (s, .fatal) := by
+  unfold Cmds.cmdWait
+  rw [hbg, Cmds.waitAll_contradiction false pre post b hpre hb]
+  simp [Cmds.fatal]
+
+/-- `exec prog … &` (helper found) never fails by itself, whatever the helper will do: it appends one
+entry carrying the line's `!`, clears the buffers and consumes stdin. -/
+theorem exec_background_records (s : Cmds.St) (neg : Bool) (hargs : List Bytes) (name : Bytes) (r : Cmds.HRes)
+    (hr : Cmds.runHelper s.stdin hargs = some r) :
+    Cmds.execBg s neg (lit "vh") hargs name =
+      ({ s with stdin := [], stdout := [], stderr := [],
+                bg := s.bg ++ [⟨name, neg, r.out, r.err, r.status, r.blocks, false⟩] }, .ok) := by
+  have hp : Cmds.progOf (lit "vh") = .helper := by decide +kernel
+  simp [Cmds.execBg, hp, hr, Cmds.okay]
+
+/-- a foreground `exec` of the helper: ends `ok` iff the exit status is as the line demands -/
+theorem exec_foreground_status (s : Cmds.St) (neg : Bool) (hargs : List Bytes) (r : Cmds.HRes)
+    (hr : Cmds.runHelper s.stdin hargs = some r) (hb : r.blocks = false) :
+    ((Cmds.execFg s neg (lit "vh") hargs).2 = .ok ↔ (r.status == 0) ≠ neg) ∧
+    ((Cmds.execFg s neg (lit "vh") hargs).2 = .fatal ↔ (r.status == 0) = neg) ∧
+    (Cmds.execFg s neg (lit "vh") hargs).1.stdout = r.out ∧ (Cmds.execFg s neg (lit "vh") hargs).1.stderr = r.err := by
+  have hp : Cmds.progOf (lit "vh") = .helper := by decide +kernel
+  simp only [Cmds.execFg, hp, hr, hb]
+  by_cases h : (r.status == 0) = neg <;> simp [h, Cmds.fatal, Cmds.okay]
+
+/-- `exec vh exit:1 &`, no `wait`, then `skip`: the line fails; with `! exec … &` the script is skipped;
+`wait` instead of `skip` fails / passes likewise. -/
+example :
+    let quickFail (neg : Bool) : Cmds.Bg := ⟨[], neg, [], [], 1, false, false⟩
+    (Cmds.cmdSkip false { Cmds.initSt with bg := [quickFail false] } false []).2 = .fatal ∧
+    (Cmds.cmdSkip false { Cmds.initSt with bg := [quickFail true] } false []).2 = .skip ∧
+    (Cmds.cmdWait false { Cmds.initSt with bg := [quickFail false] } false []).2 = .fatal ∧
+    (Cmds.cmdWait false { Cmds.initSt with bg := [quickFail true] } false []).2 = .ok := by
+  decide
+
+example : Cmds.BgAsDemanded true ⟨[], true, [], [], 0, true, false⟩ ∧
+    Cmds.bgStatus true (⟨[], false, [], [], 0, true, false⟩ : Cmds.Bg) = some false :=
+  ⟨⟨false, by decide, by decide⟩, by decide⟩
+
+example : Cmds.runHelper [120] [lit "out:a", lit "cat", lit "exit:3"] = some ⟨[97, 10, 120], [], 3, false⟩ := by
+  decide +kernel
 
 /-! ### guards and negation -/
 
